@@ -99,6 +99,9 @@ def handle : Handler := fun j => do
       (if (conflictPaths items) != [] then ["has-conflict"] else []) ++
       (if dirs.any (fun d => match d.2 with | .unscannable => true | _ => false) then ["has-unscannable-dir"] else []) ++
       (if dirs.any (fun d => match d.2 with | .missing => true | _ => false) then ["has-missing-dir"] else []) ++
+      (if dirs.any (fun d => match d.2 with | .unreadable => true | _ => false) then ["has-unlistable-dir"] else []) ++
+      (if dirs.any (fun d => match d.2 with
+          | .dir es => es.any (fun e => match e.kind with | .lstatError => true | _ => false) | _ => false) then ["has-unexaminable-entries"] else []) ++
       (if (allRefs items).any (fun r => (allRefs items).any (fun r' => r'.qname == r.qname && r'.prio < r.prio)) then ["has-shadowing"] else [])
     pure (verdict agree judge (Json.mkObj [("devices", hexList mDevices), ("errorkeys", hexList mErrKeys)]) tags)
   | "inject" =>
